@@ -56,30 +56,28 @@ def union_no_overlap(events1: List[Event], events2: List[Event]) -> List[Event]:
         e1_p = Timeslot(e1.timestamp, e1.timestamp + e1.duration)
         e2_p = Timeslot(e2.timestamp, e2.timestamp + e2.duration)
 
-        if e1_p.intersects(e2_p):
-            if e1.timestamp <= e2.timestamp:
-                events_union.append(e1)
-                e1_i += 1
-
-                # If e2 continues after e1, we need to split up the event so we only get the part that comes after
-                _, e2_next = _split_event(e2, e1.timestamp + e1.duration)
-                if e2_next:
-                    events2[e2_i] = e2_next
-                else:
-                    e2_i += 1
-            else:
-                e2_next, e2_next2 = _split_event(e2, e1.timestamp)
-                events_union.append(e2_next)
-                e2_i += 1
-                if e2_next2:
-                    events2.insert(e2_i, e2_next2)
+        if e2_p.end <= e1_p.start:
+            # e2 lies entirely before e1
+            events_union.append(e2)
+            e2_i += 1
+        elif e1_p.end <= e2_p.start:
+            # e1 lies entirely before e2
+            events_union.append(e1)
+            e1_i += 1
+        elif e2_p.start < e1_p.start:
+            # Only the part of e2 before e1 is kept now, the rest is handled in the next iteration
+            e2_head, e2_tail = _split_event(e2, e1.timestamp)
+            events_union.append(e2_head)
+            events2[e2_i] = e2_tail
+        elif e2_p.end <= e1_p.end:
+            # e2 is entirely covered by e1
+            e2_i += 1
         else:
-            if e1.timestamp <= e2.timestamp:
-                events_union.append(e1)
-                e1_i += 1
-            else:
-                events_union.append(e2)
-                e2_i += 1
+            # e2 continues after e1, we need to split up the event so we only get the part that comes after
+            _, e2_tail = _split_event(e2, e1.timestamp + e1.duration)
+            events2[e2_i] = e2_tail
+            events_union.append(e1)
+            e1_i += 1
     events_union += events1[e1_i:]
     events_union += events2[e2_i:]
     return events_union
